@@ -140,6 +140,70 @@ M('svd-raw-new', 'C14,C12', 'no-raw-owning-pointer',
         raw->init();
         m_eigs.reset(raw);""")], 'init() may throw (operator) while the solver is held by a raw pointer')
 
+# ----------------------------------------------------------------------------- C12 / C18
+M('herm-ctor-nev-off-by-one', 'C12', 'range-guard-equals-documented-range',
+  [('HermEigsBase.h', """        m_info(CompInfo::NotComputed)
+    {
+        if (nev < 1 || nev > m_n - 1)
+            throw std::invalid_argument("nev must satisfy 1 <= nev <= n - 1, n is the size of matrix");
+
+        if (ncv <= nev || ncv > m_n)
+            throw std::invalid_argument("ncv must satisfy nev < ncv <= n, n is the size of matrix");
+    }
+
+    // If op is an rvalue""", """        m_info(CompInfo::NotComputed)
+    {
+        if (nev < 0 || nev > m_n - 1)
+            throw std::invalid_argument("nev must satisfy 1 <= nev <= n - 1, n is the size of matrix");
+
+        if (ncv <= nev || ncv > m_n)
+            throw std::invalid_argument("ncv must satisfy nev < ncv <= n, n is the size of matrix");
+    }
+
+    // If op is an rvalue""")], 'lvalue constructor accepts nev = 0; siblings disagree')
+M('gen-ctor-ncv-relaxed', 'C12,C13', 'range-guard-equals-documented-range',
+  [('GenEigsBase.h', "if (ncv < nev + 2 || ncv > m_n)", "if (ncv < nev + 1 || ncv > m_n)")], 'ncv = nev + 1 accepted: restart size can reach ncv - 1 and the conjugate-pair look-ahead')
+M('gen-ctor-wrong-exception', 'C12', 'rejections-are-invalid_argument',
+  [('GenEigsBase.h', 'throw std::invalid_argument("nev must satisfy 1 <= nev <= n - 2, n is the size of matrix");', 'throw std::out_of_range("nev must satisfy 1 <= nev <= n - 2, n is the size of matrix");')])
+M('cayley-accepts-zero-sigma', 'C12', 'guard-dominates-use',
+  [('SymGEigsShiftSolver.h', """        if (sigma == Scalar(0))
+            throw std::invalid_argument("SymGEigsShiftSolver: sigma cannot be zero in the Cayley mode");
+        op.set_shift(sigma);""", """        op.set_shift(sigma);
+        if (sigma == Scalar(0))
+            throw std::invalid_argument("SymGEigsShiftSolver: sigma cannot be zero in the Cayley mode");""")], 'the factorization at sigma = 0 runs first (may throw a different exception / wrong type)')
+M('cholesky-square-guard-weak', 'C12', 'square-matrix-guard',
+  [('MatOp/DenseCholesky.h', "if (m_n != mat.cols())", "if (m_n < mat.cols())")], 'tall matrices accepted')
+M('gen-largestimag-builds-smallest', 'C18,C04', 'dispatch-arm-matches-case-label',
+  [('GenEigsBase.h', """            case SortRule::LargestImag:
+            {
+                SortEigenvalue<Complex, SortRule::LargestImag> sorting(evals.data(), m_ncv);""", """            case SortRule::LargestImag:
+            {
+                SortEigenvalue<Complex, SortRule::SmallestImag> sorting(evals.data(), m_ncv);""")], 'no test uses LargestImag as selection')
+M('smallestmagn-key-negated', 'C18', 'sort-key-matches-rule-name',
+  [('Util/SelectionRule.h', """        using std::abs;
+        return abs(val);
+    }
+};
+
+// Specialization for SortRule::SmallestReal""", """        using std::abs;
+        return -abs(val);
+    }
+};
+
+// Specialization for SortRule::SmallestReal""")])
+M('comparator-nonstrict', 'C18', 'comparator-and-full-range-sort',
+  [('Util/SelectionRule.h', "return SortingTarget<T, Rule>::get(m_evals[i]) < SortingTarget<T, Rule>::get(m_evals[j]);", "return SortingTarget<T, Rule>::get(m_evals[i]) <= SortingTarget<T, Rule>::get(m_evals[j]);")],
+  'not a strict weak order: std::sort has undefined behaviour on ties')
+M('bothends-off-by-one', 'C18', 'bothends-interleave',
+  [('Util/SelectionRule.h', "ind[i] = ind_copy[len - 1 - i / 2];", "ind[i] = ind_copy[len - 1 - (i + 1) / 2];")], 'odd positions skip the smallest value')
+M('argsort-missing-break', 'C18', 'dispatch-arm-matches-case-label',
+  [('Util/SelectionRule.h', """            SortEigenvalue<Scalar, SortRule::LargestMagn> sorting(values.data(), len);
+            sorting.swap(ind);
+            break;""", """            SortEigenvalue<Scalar, SortRule::LargestMagn> sorting(values.data(), len);
+            sorting.swap(ind);""")], 'LargestMagn falls through into the LargestAlge arm')
+M('herm-sorting-accepts-bothends', 'C18,C12', 'dispatch-arm-matches-case-label',
+  [('HermEigsBase.h', "        if ((sort_rule != SortRule::LargestAlge) && (sort_rule != SortRule::LargestMagn) &&", "        if ((sort_rule != SortRule::LargestAlge) && (sort_rule != SortRule::LargestMagn) && (sort_rule != SortRule::BothEnds) &&")])
+
 # behaviour-preserving edits: every listed check must stay silent (exit 0)
 NEUTRAL = []
 
@@ -154,3 +218,23 @@ N('herm-refresh-under-if', 'C01,C05', [('HermEigsBase.h', """        nconv = num
         // Sorting results""", """        if (i >= maxit)
             nconv = num_converged(tol);
         // Sorting results""")], 'F1 written conditionally: after break the flags are already fresh (needs FEAS)')
+N('herm-ctor-nev-ge-n', 'C12', [('HermEigsBase.h', """        m_info(CompInfo::NotComputed)
+    {
+        if (nev < 1 || nev > m_n - 1)
+            throw std::invalid_argument("nev must satisfy 1 <= nev <= n - 1, n is the size of matrix");
+
+        if (ncv <= nev || ncv > m_n)
+            throw std::invalid_argument("ncv must satisfy nev < ncv <= n, n is the size of matrix");
+    }
+
+    // If op is an rvalue""", """        m_info(CompInfo::NotComputed)
+    {
+        if (!(nev >= 1) || nev >= m_n)
+            throw std::invalid_argument("nev must satisfy 1 <= nev <= n - 1, n is the size of matrix");
+
+        if (!(ncv > nev && ncv <= m_n))
+            throw std::invalid_argument("ncv must satisfy nev < ncv <= n, n is the size of matrix");
+    }
+
+    // If op is an rvalue""")], 'same predicate written differently')
+N('bothends-rewritten', 'C18', [('Util/SelectionRule.h', "ind[i] = ind_copy[len - 1 - i / 2];", "ind[i] = ind_copy[len - (i + 1) / 2];")], 'same index for odd i')
